@@ -483,6 +483,39 @@ def step (line : String) : String :=
   | ["miepointrad", a, b, c, d, e, f, kr, th, ph, e1, e2] =>
       let r := miePointRad (⟨pF a, pF b⟩ : Cx Float) ⟨pF c, pF d⟩ ⟨pF e, pF f⟩ (pF kr) (pF th) (pF ph) (pF e1) (pF e2)
       sFs (flatCx [r.1, r.2.1, r.2.2])
+  -- C08 ---------------------------------------------------------------
+  | "aberphase" :: nc :: rest =>
+      -- aberphase <ncoef> coefs… kz qs…  ->  pupilPhaseAberrated at each q
+      let cs := (rest.take (pN nc)).map pF
+      match rest.drop (pN nc) with
+      | kz :: qs => sFs ((qs.map pF).map fun q => pupilPhaseAberrated cs (pF kz) q)
+      | _ => "bad-op"
+  | "pupilphase" :: kz :: qs => sFs ((qs.map pF).map fun q => pupilPhase (pF kz) q)
+  | "mielensin" :: rest =>
+      -- nodes: x w phase Sre Sim J
+      let rec qnodes : List Float → List (Float × Float × Float × Cx Float × Float)
+        | x :: w :: ph :: sr :: si :: j :: r => (x, w, ph, ⟨sr, si⟩, j) :: qnodes r
+        | _ => []
+      let v := mielensIn (qnodes (rest.map pF)); sFs [v.re, v.im]
+  | ["mielensscattered", npts, krho, phi, a, b, c, d] =>
+      let r := mielensScattered (pN npts) (pF krho) (pF phi) (⟨pF a, pF b⟩ : Cx Float) ⟨pF c, pF d⟩
+      sFs (flatCx [r.1, r.2])
+  | ["interpdecision", deg, win, ptp, n] => toString (interpolateDecision (pN deg) (pF win) (pF ptp) (pN n))
+  | ["windows", w, xmin, xmax] =>
+      let start := (Float.floor (pF xmin / pF w)).toInt64.toInt
+      let stop := (Float.ceil (pF xmax / pF w + 1e-4)).toInt64.toInt + 1
+      let bps : List Float := windowBreakpoints (pF w) start stop
+      let wins := windowsOf bps
+      sFs bps ++ " ; outside " ++ toString (outsideDomain (pF xmin) (pF xmax) (bps.headD 0.0) (bps.getLastD 0.0)) ++ " ; nwin " ++ toString wins.length
+  | ["windowof", w, xmin, xmax, x] =>
+      let start := (Float.floor (pF xmin / pF w)).toInt64.toInt
+      let stop := (Float.ceil (pF xmax / pF w + 1e-4)).toInt64.toInt + 1
+      let wins := windowsOf (windowBreakpoints (pF w) start stop : List Float)
+      toString ((List.range wins.length).filter fun i => inWindow (pF x) (wins.getD i (0.0, 0.0)))
+  | ["lensnodes", nt, np] =>
+      let ntheta := pN nt; let nphi := pN np
+      " ".intercalate ((List.range ntheta).flatMap fun it => (List.range nphi).map fun ip => toString (lensTableIndex ntheta nphi it ip)) ++ " ; " ++
+      " ".intercalate ((lensNodePositions (List.range ntheta) (List.range nphi)).map fun p => toString p.1 ++ ":" ++ toString p.2)
   -- C10 ---------------------------------------------------------------
   | ["tmargs", kind, p1, p2, nre, nim, r1, r2, k, nmed] =>
       let sh : TmShape Float := if kind == "sphere" then .sphere (pF p1) else if kind == "spheroid" then .spheroid (pF p1) (pF p2) else .cylinder (pF p1) (pF p2)
